@@ -310,3 +310,29 @@ Example C03_mesh_query_nonvacuous :
   exists idx p, mesh_query 7 (P ident (V 0 0 0)) octa_vs octa_conn [0; 2; 4; 1; 3; 5]%nat 3%nat (V 1 (/2) (/4))
                 = Some (idx, p).
 Proof. exact mesh_query_octahedron_nonvacuous. Qed.
+
+(** ** per-input verdicts: soundness of the certificate checker the harness evaluates with
+       vm_compute on the exact rationals of the implementation's answer ([sem S] is the
+       point set of the shape expression, [w] an untrusted membership witness) *)
+From Coq Require Import Qreals.
+From D3 Require Checker.Shapes Checker.ShapesCert.
+Local Open Scope R_scope.
+Theorem C03_support_cert_sound S w s d tau sigma :
+  ShapesCert.support_cert S w s d tau sigma = true ->
+  (exists q, Checker.Shapes.sem S q /\ norm (vsub (Checker.Shapes.v2r s) q) <= Q2R tau) /\
+  (forall x, Checker.Shapes.sem S x -> dot x (Checker.Shapes.v2r d) <= dot (Checker.Shapes.v2r s) (Checker.Shapes.v2r d) + Q2R sigma).
+Proof. exact (ShapesCert.support_cert_sound S w s d tau sigma). Qed.
+Print Assumptions C03_support_cert_sound.
+
+Theorem C03_support_cert_scaled_sound S w s d dc c tau :
+  ShapesCert.support_cert_scaled S w s d dc c tau = true ->
+  (exists q, Checker.Shapes.sem S q /\ norm (vsub (Checker.Shapes.v2r s) q) <= Q2R tau) /\
+  (forall x, Checker.Shapes.sem S x -> dot x (Checker.Shapes.v2r d) <= dot (Checker.Shapes.v2r s) (Checker.Shapes.v2r d) + Q2R tau).
+Proof. exact (ShapesCert.support_cert_scaled_sound S w s d dc c tau). Qed.
+Print Assumptions C03_support_cert_scaled_sound.
+
+Theorem C03_membership_cert_sound S w p tau :
+  Checker.Shapes.in_shape_tol S w p tau = true ->
+  exists q, Checker.Shapes.sem S q /\ norm (vsub (Checker.Shapes.v2r p) q) <= Q2R tau.
+Proof. exact (Checker.Shapes.in_shape_tol_sound S w p tau). Qed.
+Print Assumptions C03_membership_cert_sound.
